@@ -2,3 +2,5 @@ import ClvmModel.Basic
 import ClvmModel.Varint
 import ClvmModel.Tree
 import ClvmModel.Proto.Varint
+import ClvmModel.Proto.Alloc
+import ClvmModel.Proto.Crypto
